@@ -41,6 +41,7 @@ def run(repo, chk):
     rule_shared(repo, chk)
     rule_stream_guard(repo, chk)
     rule_version(repo, chk)
+    rule_abort(repo, chk)
 
 
 def rule_prepare(repo, chk):
@@ -458,3 +459,38 @@ def rule_version(repo, chk):
         chk.ob('i', f.ref, f'before `{name or src(e)}` is fired the response protocol was set from the server\'s version (or the major versions are known to be equal)',
                bad is None, loc(f, n.ast), path=pat.path_lines(bad) if bad else None, discr=f'server-version:{name or src(e)}#{seen_names[name or src(e)]}')
     need(n_ans >= 3, f'C15.i: only {n_ans} answers found after a parsed request line')
+
+
+def rule_abort(repo, chk):
+    chk.rule('C15.j', 'once the header block of a response is on the wire, a failure of its body source ends the message by closing the connection: the header '
+                      'write is recorded, response_failure builds a new response only for a response that was not started, stream_failure closes')
+    cls = repo.cls(WEB_HTTP, 'HTTP')
+    rs = cls.methods['_on_response']
+    g = rs.cfg()
+    hw = [n for n in g.nodes if n.kind == 'stmt' and 'bytes(res)' in src(n.ast) and pat.fire_calls(n.ast)]
+    need(hw, 'C15.j: _on_response does not write the header')
+    marks = [n for n in g.nodes if n.kind == 'stmt' and any(a == 'started' and src(v) == 'True' for _r, a, v in pat.attr_store(n.ast))]
+    direct = bool(marks) and all(any(e.dst in marks for e in h.succ if e.kind == 'n') for h in hw)
+    chk.ob('j', rs.ref, 'the header write is recorded on the response at once (nothing that can fail in between)', direct, loc(rs, hw[0].ast), discr='started-recorded')
+    rf = need(cls.methods.get('_on_response_failure'), 'C15.j: _on_response_failure missing')
+    chk.touch(rf)
+    gf = rf.cfg()
+    mk = [n for n in gf.nodes if n.kind == 'stmt' and 'wrappers.Response(' in src(n.ast)]
+    not_started = pat.test_edge(lambda tt, pol: pol == 'F' and src(tt).endswith('.started'))
+    for n in mk:
+        q = pat.guarded_by(gf, n, not_started)
+        chk.ob('j', rf.ref, 'a replacement response is built only if nothing of the failed response has been written', q is None, loc(rf, n.ast),
+               path=pat.path_lines(q) if q else None, discr='no-second-response-after-start')
+    started_T = [e for n in gf.nodes if n.kind == 'test' and src(n.ast).endswith('.started') for e in n.succ if e.kind == 'T']
+    closes = [n for n in gf.nodes if n.kind == 'stmt' and any(pat.event_ctor_name(e) == 'close' for _c, _r, e in pat.fire_calls(n.ast))]
+    okc = bool(started_T) and all(e.dst in closes or Q.escapes(gf, [e.dst], lambda n: n in closes, exits=('exit',)) is None for e in started_T)
+    chk.ob('j', rf.ref, 'a started response that failed is ended by closing the connection', okc, loc(rf, rf.node), discr='started-failure-closes')
+    sf = [m for m in cls.methods.values() if m.handler is not None and 'stream_failure' in m.handler.names]
+    oks = False
+    for m in sf:
+        chk.touch(m)
+        gm = m.cfg()
+        cl = [n for n in gm.nodes if n.kind == 'stmt' and any(pat.event_ctor_name(e) == 'close' for _c, _r, e in pat.fire_calls(n.ast))]
+        if cl and Q.escapes(gm, [gm.entry], lambda n: n in cl, exits=('exit',), avoid_edge=pat.test_edge(lambda tt, pol: pol == 'T' and src(tt).endswith('.done'))) is None:
+            oks = True
+    chk.ob('j', cls.ref, 'a failing source of a streamed body closes the connection (unless the response was finished already)', oks, WEB_HTTP, discr='stream-failure-closes')
